@@ -246,6 +246,8 @@ static void attach_compare(void) {
     qhasharr_t *t2 = qhasharr(A1.region, 0);
     if (!t2) { judge("C07", "attach-failed", "qhasharr(mem,0) failed"); return; }
     uint64_t d1 = observe(t2, false, "C07");
+    { int m1 = 0, u1 = 0, m2 = 0, u2 = 0; int n1 = T->size(T, &m1, &u1), n2 = t2->size(t2, &m2, &u2);
+      if (n1 != n2 || m1 != m2 || u1 != u2) { t2->free(t2); judge("C07", "attach-counters", "a second handle on the same region reports size (%d,%d,%d), the first one (%d,%d,%d)", n2, m2, u2, n1, m1, u1); return; } }
     t2->free(t2);
     if (d1 != d0) { judge("C07", "attach-same-memory", "a second handle on the same region observes different contents"); return; }
     size_t shift = 4 * (1 + rng_below(&R, 12));
@@ -282,6 +284,12 @@ static void after_op(bool full) {
     if (abandon) return;
     if (!arena_guards_intact(&A1)) { judge(P == 11 ? "C11" : "C07", "guard-zone", "bytes outside the user region were written"); return; }
     if (P == 6 || P == 11) observe(T, true, "C06");
+    if (P == 6 && full && !abandon) {   /* a second handle attached to the same memory ("use existing data") sees the same map and the same counters, and attaching changes nothing */
+        qhasharr_t *t2 = qhasharr(A1.region, 0);
+        if (!t2) { judge("C06", "attach-failed", "qhasharr(mem,0) failed"); return; }
+        observe(t2, true, "C06"); t2->free(t2); vf_count("attached_handles_checked_against_the_model", 1);
+        if (!abandon) observe(T, true, "C06");
+    }
     if ((P == 7 || P == 11) && !abandon) {
         image_walk(A1.region, "C07");
         if (!abandon) observe(T, true, "C06");   /* model divergence would invalidate the rest of the history */
@@ -356,13 +364,18 @@ static void classify_put(int id) {
 }
 
 static void table_new(int cap, size_t shift) {
-    size_t rsize = qhasharr_calculate_memsize(cap);
+    /* the user's region need not be a size calculate_memsize() returns: up to one slot minus a byte of slack stays unused (and untouched) */
+    static unsigned long tn; tn++;
+    size_t slot = qhasharr_calculate_memsize(2) - qhasharr_calculate_memsize(1);
+    size_t slack = (size_t[]){0, 0, 1, slot - 4, slot - 1, slot - 3, slot / 2, slot - 2}[tn % 8];
+    size_t rsize = qhasharr_calculate_memsize(cap) + slack;
     arena_drop(&A1); arena_drop(&A2);
     arena_setup(&A1, rsize, shift);
     T = qhasharr(A1.region, rsize);
     if (!T) { fprintf(stderr, "qhasharr(%d) failed errno=%d\n", cap, errno); exit(2); }
     CAP = cap; abandon = false; foreign_mismatch = false;
-    if (HDR(A1.region)->maxslots != cap) { fprintf(stderr, "capacity mismatch %d vs %d\n", HDR(A1.region)->maxslots, cap); exit(2); }
+    if (slack) vf_count("regions_with_slack_bytes", 1);
+    if (HDR(A1.region)->maxslots != cap) { judge(P == 6 ? "C06" : "C07", "header-capacity", "a region of %zu bytes (%d slots + %zu bytes) was initialised with maxslots=%d", rsize, cap, slack, HDR(A1.region)->maxslots); }
 }
 static void table_free(void) { if (T) T->free(T); T = NULL; arena_drop(&A1); arena_drop(&A2); }
 
